@@ -443,6 +443,41 @@ def c20(run, vc):
             raise vc.ToolError("vacuity: faulty variant %s does not violate the invariants" % m)
         killed.append(m)
     run.extra_cov["faulty_variants_refuted_by_tlc"] = killed
+    # unbounded number of calls / draws / steps: the inductive form of NoReuse, discharged by Apalache
+    # (Init => IndInv, IndInv /\ Next => IndInv', IndInv => NoReuse), and its negative control (a constant seed)
+    wd = os.path.join(vc.WORK, "apalache_%d" % os.getpid())
+    shutil.rmtree(wd, ignore_errors=True)
+    os.makedirs(wd)
+    try:
+        src = open(os.path.join(vc.SPEC, "RngInd.tla")).read()
+        open(os.path.join(wd, "RngInd.tla"), "w").write(src)
+        bad = src.replace("seed' = [seed EXCEPT ![t] = pool]", "seed' = [seed EXCEPT ![t] = 1]").replace("MODULE RngInd ", "MODULE RngIndBad ")
+        if bad.count("= 1]") != 1:
+            raise vc.ToolError("cannot derive the negative control of RngInd")
+        open(os.path.join(wd, "RngIndBad.tla"), "w").write(bad)
+        def apalache(mod, init, inv, length):
+            try:
+                rc, out, dt = vc.sh(["apalache-mc", "check", "--cinit=ConstInit", "--init=" + init, "--inv=" + inv, "--length=%d" % length, mod + ".tla"], cwd=wd, timeout=1500, check=False)
+            except subprocess.TimeoutExpired:
+                raise vc.ToolError("apalache timed out on %s %s" % (mod, inv))
+            if "EXITCODE: OK" in out:
+                return True, dt
+            if "EXITCODE: ERROR (12)" in out:
+                return False, dt
+            raise vc.ToolError("apalache failed on %s: %s" % (mod, out[-1500:]))
+        obligations = [("Init", "IndInv", 0), ("IndInit", "IndInv", 1), ("IndInit", "NoReuse", 0)]
+        for init, inv, length in obligations:
+            ok, dt = apalache("RngInd", init, inv, length)
+            run.stages.append({"stage": "apalache", "module": "RngInd", "obligation": "%s, %d step(s) => %s" % (init, length, inv), "holds": ok, "wall_s": round(dt, 1)})
+            if not ok:
+                run.violations.append(("spec", {"why": "Apalache: obligation %s / %s of RngInd fails: the seeding discipline of the specification admits reuse" % (init, inv)}))
+                return run.finish()
+        ok, dt = apalache("RngIndBad", "IndInit", "IndInv", 1)
+        if ok:
+            raise vc.ToolError("vacuity: the constant-seed variant of RngInd passes the inductive step")
+        run.extra_cov["inductive_invariant"] = "RngInd: Init => IndInv; IndInv /\\ Next => IndInv'; IndInv => NoReuse (Apalache, unbounded integers, 3 threads); constant-seed variant refuted"
+    finally:
+        shutil.rmtree(wd, ignore_errors=True)
     # the implementation: P processes started together, T threads each, N rounds of every entry point
     n, t, p = (48, 4, 2) if tier == "quick" else (512, 16, 4)
     outs = []
